@@ -326,7 +326,7 @@ def run_shard(spec) -> Acc:
 
 
 def plan(tier, seed):
-    n = 150 if tier == "quick" else 4000
+    n = 250 if tier == "quick" else 4000
     return ([{"part": "reframe", "shard": i, "n": n} for i in range(10)]
             + [{"part": "grouped_write", "shard": 100 + i, "n": n} for i in range(6)]
             + [{"part": "partitions", "shard": 200 + i, "n": 1 if tier == "quick" else 12} for i in range(4 if tier == "quick" else 16)])
